@@ -1,6 +1,6 @@
 #!/bin/bash
 # Runs the pinned suite with the guard OFF and reports differences from BASELINE.json stable_pass.
-cd /repo && env -u NEMO_GUARDRAILS_VERIF /venv/bin/python -m pytest -ra -q -p no:cacheprovider --timeout=900 --continue-on-collection-errors --junitxml=/tmp/vf-baseline.xml -n 4 >/tmp/vf-baseline.log 2>&1
+cd /repo && env -u NEMO_GUARDRAILS_VERIF /venv/bin/python -m pytest -ra -q -p no:cacheprovider --timeout=900 --continue-on-collection-errors --junitxml=/tmp/vf-baseline.xml >/tmp/vf-baseline.log 2>&1
 /venv/bin/python - <<'PY'
 import json, xml.etree.ElementTree as ET
 base=set(json.load(open('/root/.vp/BASELINE.json'))['stable_pass'])
